@@ -211,7 +211,7 @@ def expected_session(rendered):
 
 # --------------------------------------------------------------------- (b)
 
-OPS = ["c", "n", "s", "2", "r", "l", "m", "i", "p", "y", "g"]
+OPS = ["c", "n", "s", "2", "r", "l", "m", "i", "p", "y", "g", "q", "u"]
 OP_DOC = {
     "c": "K                          fresh constant",
     "n": "None                       None-valued form",
@@ -224,8 +224,10 @@ OP_DOC = {
     "p": "(print K)                  print (value None)",
     "y": "(setv K)                   compile-time syntax error",
     "g": "(let [a K] (nonlocal zq) a)  compile-time error raised when the global scope is left (state kept by the REPL's one compiler)",
+    "q": "(defn fq [] (defmacro lmq [] K) (setv K))   compile-time error inside a function scope that has defined a local macro",
+    "u": "(lmq)                      call of a name that is a macro only locally inside fq: a NameError at top level, always",
 }
-FAILS = {"r": "runtime", "l": "reader", "m": "macro", "y": "compile", "g": "compile"}
+FAILS = {"r": "runtime", "l": "reader", "m": "macro", "y": "compile", "g": "compile", "q": "compile", "u": "runtime"}
 
 
 def hist_const(index):
@@ -245,6 +247,8 @@ def op_lines(op, k):
         "p": ["(print %d)" % k],
         "y": ["(setv %d)" % k],
         "g": ["(let [a %d] (nonlocal zq) a)" % k],
+        "q": ["(defn fq [] (defmacro lmq [] %d) (setv %d))" % (k, k)],
+        "u": ["(lmq)"],
     }[op]
 
 
